@@ -718,6 +718,29 @@ where
     Box::pin(std::future::ready(yash_env::builtin::Result::new(ExitStatus(st))))
 }
 
+/// `off FD` : print the current file offset of a descriptor on standard output (for the R/V
+/// differential, where events of the real-system run are not visible to the parent)
+fn off_main<S>(
+    env: &mut Env<S>,
+    args: Vec<Field>,
+) -> Pin<Box<dyn Future<Output = yash_env::builtin::Result> + '_>>
+where
+    S: yash_env::system::Seek + yash_env::system::concurrency::WriteAll,
+{
+    Box::pin(async move {
+        let fd: i32 = args.first().and_then(|f| f.value.parse().ok()).unwrap_or(0);
+        let off = match env.system.lseek(Fd(fd), std::io::SeekFrom::Current(0)) {
+            Ok(o) => o.to_string(),
+            Err(e) => format!("error:{e:?}"),
+        };
+        let s = format!("off{fd}={off}\n");
+        match env.system.write_all(Fd::STDOUT, s.as_bytes()).await {
+            Ok(_) => yash_env::builtin::Result::new(ExitStatus::SUCCESS),
+            Err(_) => yash_env::builtin::Result::new(ExitStatus::FAILURE),
+        }
+    })
+}
+
 /// `ret N` : return N, no other effect.
 fn ret_main<S>(
     _env: &mut Env<S>,
@@ -957,6 +980,7 @@ where
         ("sink", Builtin::new(Type::Mandatory, sink_main::<S>)),
         ("relay", Builtin::new(Type::Mandatory, relay_main::<S>)),
         ("pos", Builtin::new(Type::Mandatory, pos_main::<S>)),
+        ("off", Builtin::new(Type::Mandatory, off_main::<S>)),
     ]
 }
 
